@@ -64,7 +64,22 @@ Definition check_interval_unit (args : list sexp) : option (list sexp) :=
   | _ => None
   end.
 
+(* parser half of C12 (testing, not proof): (D type mutation n outcome site input);
+   the specification is "Ok or Err": a panic is a violation, reported in the class of its site *)
+Definition check_parser_unit (args : list sexp) : option (list sexp) :=
+  match args with
+  | [A "D"; ty; kind; _; A o; site; _] =>
+      match dec_str ty, dec_str site with
+      | Some ty', Some site' =>
+          if (o =? "ok") || (o =? "err") then Some [A "ok"; A ("parser:" ++ o)]
+          else if o =? "panic" then Some [A ("known:parser-panic:" ++ site'); A "parser:panic"; A ("type:" ++ ty')]
+          else Some [A "bad"; A ("parser:" ++ o); A ("type:" ++ ty')]
+      | _, _ => None end
+  | _ => None
+  end.
+
 Definition check_V (p : string) (args : list sexp) : list sexp :=
+  match check_parser_unit args with Some v => v | None =>
   match check_interval_unit args with Some v => v | None =>
   match args with
   | [A "V"; fmt; r; pr; cx; impl; base] =>
@@ -82,4 +97,4 @@ Definition check_V (p : string) (args : list sexp) : list sexp :=
       | _, _, _ => [A "decode-error"]
       end
   | _ => [A "decode-error"]
-  end end.
+  end end end.
